@@ -18,5 +18,8 @@ extern "C" int g_throw;
 extern "C" unsigned g_errors;
 extern "C" unsigned g_error_bits;
 
+extern "C" int g_vec_alloc;          // frame switch: vectors may allocate fresh storage on growth
+extern "C" size_t g_alloc_bytes;     // ghost: size of the last such allocation
+extern "C" void *malloc(size_t);
 #define CVS_ASSERT(c, msg) __CPROVER_assert((c), msg)
 #endif
